@@ -251,7 +251,15 @@ Definition zn (n : nat) : Z := Z.of_nat n.
 Definition zo (x : option nat) : Z := match x with Some n => zn n | None => (-1)%Z end.
 Definition zb (b : bool) : Z := if b then 1%Z else 0%Z.
 Definition zk (k : portkind) : Z := match k with PIn => 0%Z | POut => 1%Z | PInOut => 2%Z end.
-Definition ztbl (t : tbl) : list Z := flat_map (fun '(k, v) => [k; zn v]) t.
+(* tables are dumped sorted by name: dict insertion order is not part of the property (it only decides WHICH
+   error checkIntegrity reports first), so a rewrite that changes it must not break the correspondence *)
+Fixpoint tins (k : name) (v : nat) (t : tbl) : tbl :=
+  match t with
+  | [] => [(k, v)]
+  | (k', v') :: r => if (k <=? k')%Z then (k, v) :: t else (k', v') :: tins k v r
+  end.
+Definition tsort (t : tbl) : tbl := fold_right (fun '(k, v) acc => tins k v acc) [] t.
+Definition ztbl (t : tbl) : list Z := flat_map (fun '(k, v) => [k; zn v]) (tsort t).
 
 Definition dump_obj (s : state) (i : nat) : list (list Z) :=
   [[zo (oparent s i); oname s i; zb (oprim s i)]; ztbl (ochildren s i); ztbl (owires s i);
